@@ -18,8 +18,15 @@ pub fn bases() -> Vec<String> {
     for (k, _) in modelfault::minimal_sessions() {
         b.push(format!("min:{}", k));
     }
+    // models converted from projects printed by the generator (basements, several floors,
+    // multipliers, fins and overhangs, unconditioned spaces, own glazing library)
+    for gseed in GEN_BASE_SEEDS {
+        b.push(format!("conv:{}", crate::projgen::file_rel(*gseed)));
+    }
     b
 }
+
+pub const GEN_BASE_SEEDS: &[u64] = &[101, 102, 103, 104, 105, 106, 107, 108];
 
 /// A coarse class of the element an edit is inside (boundary type and tilt class of a wall,
 /// kind of a space or bridge), so that rare classes get their own stratification cell.
